@@ -10,9 +10,13 @@ find "$D/src" -name '*.so' -delete -o -name '*.c' -delete
 /venv/bin/python - "$P" > "$D/src-only.diff" <<'PY'
 import re, sys
 text = open(sys.argv[1], encoding="utf-8", errors="surrogateescape").read()
-parts = re.split(r"(?m)^(?=diff --git )", text)
-sys.stdout.write("".join(p for p in parts if re.match(r"diff --git a/src/", p)))
+if "diff --git " not in text:
+    sys.stdout.write(text)               # a plain unified diff (hand-rebased patches): taken as it is
+else:
+    parts = re.split(r"(?m)^(?=diff --git )", text)
+    sys.stdout.write("".join(p for p in parts if re.match(r"diff --git a/src/", p)))
 PY
+if [ ! -s "$D/src-only.diff" ]; then echo "PATCH-EMPTY (nothing under src/ in this patch)"; rm -rf "$D"; echo "exit=3"; exit 3; fi
 if ! (cd "$D" && patch -s -p1 < "$D/src-only.diff"); then echo "PATCH-FAILED"; rm -rf "$D"; echo "exit=3"; exit 3; fi
 cd /verif
 set +e
